@@ -5,6 +5,7 @@ CONSTANTS
   MaxStored = 8
   MaxVer = 6
   MaxRestarts = 1
+  MaxQueued = 1
   AssignEarly = FALSE
 CONSTRAINT Bound
 INVARIANTS TypeOK Unique StrictlyIncreasingPerObject DurableLease LeaseWithinStored
